@@ -1,32 +1,17 @@
+"""Per-property manifest entries live in harness/manifest/Cnn.json:
+{"text": ..., "design_ref": ..., "note": ..., "technique": ...}"""
+import glob
+import json
+import os
+
+HERE = os.path.dirname(os.path.abspath(__file__))
+
 NOTES = ("Every check: regenerate facts from /repo, rebuild the Coq cone of the property (full .vo), "
          "Print Assumptions under every theorem, run model (extracted) and implementation on the same "
          "cases, run the implementation-only oracle. See DESIGN.md sections 1 and 5.")
 
-CLAIMED = {
-    "C20": {
-        "text": "Theorems over a Gallina model of AddRemove.__iter__ (dict as insertion-ordered association list, "
-                "stable insertion sort on the (left,right) index pairs) and KeyedTuple (last-index map): every key "
-                "once with the membership label, output sorted by the pairs the code computes, keyed lookup returns "
-                "the last entity. The model is tied to the code by exhaustive differential execution over small "
-                "universes and the independent recursive specification (runs/followers) is executed against both.",
-        "design_ref": "DESIGN.md section 4 C20",
-        "note": "Model control flow is hand-written; tied by correspondence suites ADDREMOVE-*, KEYED*. "
-                "The recursive spec of C20_anchor (runs/followers) is also executed against the implementation. "
-                "Python dict/set/sorted semantics are modelled (insertion-ordered map, stable sort).",
-        "technique": "Coq proof over executable model + exhaustive model/implementation correspondence",
-    },
-}
-
-CLAIMED["C17"] = {
-    "text": "Theorems over a Gallina model of Context.linecol (line-end list, bisect_right as the documented "
-            "binary search on explicit fuel, column arithmetic): for every text and every offset up to its length "
-            "the search terminates, line = 1 + newlines before the offset, column = 1 + characters since the last "
-            "newline, and that pair addresses exactly offset p in the text split at newlines; positions are 1-based. "
-            "Tied to the code by exhaustive differential execution over {a, newline}* up to the tier bound.",
-    "design_ref": "DESIGN.md section 4 C17",
-    "note": "bisect.bisect and the regex \"\\n\" are modelled (binary search / scan) and tied by the LINECOL suite; "
-            "positions attached by the checkers (bounds clause) are covered by the checker properties' suites.",
-    "technique": "Coq proof over executable model + exhaustive model/implementation correspondence",
-}
+CLAIMED = {}
+for p in sorted(glob.glob(os.path.join(HERE, "..", "manifest", "C*.json"))):
+    CLAIMED[os.path.basename(p)[:-5]] = json.load(open(p))
 
 NOT_YET = {}
